@@ -434,15 +434,27 @@ def emit_write_graph(repo, tier="quick"):
         return None
 
     # semantic atoms
+    # the predicate "this edge needs a symbol": the function called in the tests that guard a symbol-table lookup
+    # (pysmiles' _write_edge_symbol, or whatever local function took its place)
+    symfn = set()
+    for sub in ast.walk(lp):
+        if isinstance(sub, ast.If) and any(isinstance(x, ast.Subscript) and isinstance(x.value, ast.Name) and x.value.id == tname
+                                           for st in sub.body for x in ast.walk(st)):
+            for x in ast.walk(sub.test):
+                if isinstance(x, ast.Call) and isinstance(x.func, ast.Name) and x.args and isinstance(x.args[0], ast.Name) and \
+                        x.args[0].id == fi.positional_params[0]:
+                    symfn.add(x.func.id)
+    need(len(symfn) == 1, "cannot identify the edge-needs-symbol predicate in write_graph (candidates %s)" % sorted(symfn), fi, lp)
+    SYMFN = symfn.pop()
     S_text = SR_text = None
     for sub in ast.walk(lp):
-        if isinstance(sub, ast.Call) and isinstance(sub.func, ast.Name) and sub.func.id == "_write_edge_symbol":
+        if isinstance(sub, ast.Call) and isinstance(sub.func, ast.Name) and sub.func.id == SYMFN:
             in_ring = any(x is sub for x in ast.walk(rl))
             if in_ring:
                 SR_text = ast.unparse(sub)
             else:
                 S_text = ast.unparse(sub)
-    need(S_text and SR_text, "cannot find the two `_write_edge_symbol` tests (tree edge and ring edge) in write_graph", fi, lp)
+    need(S_text and SR_text, "cannot find the two `%s` tests (tree edge and ring edge) in write_graph" % SYMFN, fi, lp)
     # the guard that decides whether the node has a predecessor: the If enclosing the tree-edge test
     P_text = None
     B_text = None
@@ -674,12 +686,15 @@ def emit_write_graph(repo, tier="quick"):
          obs.append(ob_fail("PROV.ring-marker", fi, NEW_test, construct="closing arm keeps the marker entry", instance="release",
                             reason="a closed ring's marker is never released: the closing marker is not looked up / the ring opens again")))
     # the test "does this edge need a symbol" - trusted when it is pysmiles' own, judged when re-implemented locally
-    tgt = repo.resolve_name(fi.module, "_write_edge_symbol")
+    tgt = repo.resolve_name(fi.module, SYMFN)
     if tgt is not None and tgt.kind == "repo":
         obs += _tt_edge_symbol(repo, tgt.fi)
-    elif tgt is not None and tgt.kind == "ext":
-        obs.append(ob_ok("TT.edge-symbol", fi, construct="_write_edge_symbol is %s" % tgt.name, instance="needs-symbol",
+    elif tgt is not None and tgt.kind == "ext" and tgt.name.endswith("write_smiles._write_edge_symbol"):
+        obs.append(ob_ok("TT.edge-symbol", fi, construct="%s is %s" % (SYMFN, tgt.name), instance="needs-symbol",
                          reason="the decision whether an edge needs a symbol is pysmiles' own"))
+    else:
+        obs.append(ob_undecided("TT.edge-symbol", fi, construct="edge-needs-symbol predicate %s" % SYMFN, instance="needs-symbol",
+                                reason="neither pysmiles' _write_edge_symbol nor a function of this package"))
     return obs
 
 
